@@ -425,6 +425,11 @@ func caseSQL(c *core.Ctx, r *rand.Rand) {
 		if quiet(func() { realPlan(r, q) }) {
 			queryOps(c, q, "", "planned (calcTimeRangeAndInterval) from "+clip(text))
 		}
+	case 3, 4:
+		// the real plan stages: what the leaves decode must be what the planning node holds
+		if queryWellFormed(q) {
+			planStages(c, r, q, "parsed from "+clip(text))
+		}
 	}
 }
 
@@ -473,6 +478,9 @@ func caseMetaSQL(c *core.Ctx, r *rand.Rand) {
 		c.Fail("parser-nondeterministic", fmt.Sprintf("%q parsed twice gives different statements", text))
 	}
 	metaOps(c, m, "parsed from "+clip(text))
+	if m.Condition == nil || wellFormed(m.Condition) {
+		planMetaStage(c, m, "parsed from "+clip(text))
+	}
 	reparseAfterMutation(c, r, text, true, fresh, st, st2)
 }
 
@@ -519,7 +527,11 @@ func caseTrees(c *core.Ctx, r *rand.Rand) {
 	switch r.Intn(4) {
 	case 0:
 		c.Branch("random-query-value")
-		queryOps(c, randQuery(r, 1+r.Intn(3)), "", "random statement value")
+		q := randQuery(r, 1+r.Intn(3))
+		queryOps(c, q, "", "random statement value")
+		if r.Intn(3) == 0 {
+			planStages(c, r, q, "random statement value")
+		}
 	case 1:
 		c.Branch("random-metadata-value")
 		metaOps(c, randMeta(r, 1+r.Intn(3)), "random metadata value")
@@ -794,6 +806,37 @@ func caseAliasing(c *core.Ctx, r *rand.Rand) {
 	c.NonTrivial()
 }
 
+// casePlanFixed: fixed statements through the real plan stages — several grouping keys NOT in
+// lexicographic order, several select items with aliases, having, order by, limit, time().
+func casePlanFixed(c *core.Ctx, r *rand.Rand) {
+	c.Branch("plan-fixed")
+	for _, text := range []string{
+		"select sum(f) as s, max(g)/2, h from cpu on ns" + absRange + " and (zone='z' or app in ('b','a')) group by zone,host,app,time(1m) having s>1 order by s desc, h limit 7",
+		"select f from cpu" + absRange + " group by host,app",
+		"select * from cpu where time > now()-2h group by time(),b,a",
+		"select f from cpu",
+	} {
+		st, err := parse(c, text)
+		if err != nil {
+			c.Fail("plan-witness-rejected", text+": "+err.Error())
+			continue
+		}
+		q := st.(*stmt.Query)
+		if !strings.Contains(text, "'2019") {
+			q.TimeRange = timeutil.TimeRange{Start: 1554854400000, End: 1554861600000}
+		}
+		planStages(c, r, q, "parsed from "+text)
+	}
+	for _, text := range []string{"show tag values from cpu with key=host where zone='z' and app in ('b','a') limit 5", "show fields from cpu", "show metrics on ns where metric='a'"} {
+		st, err := parse(c, text)
+		if err != nil {
+			c.Fail("plan-witness-rejected", text+": "+err.Error())
+			continue
+		}
+		planMetaStage(c, st.(*stmt.MetricMetadata), "parsed from "+text)
+	}
+}
+
 func (area) Run(c *core.Ctx) error {
 	if err := checkStructs(); err != nil {
 		return err
@@ -811,6 +854,8 @@ func (area) Run(c *core.Ctx) error {
 			caseIntervals(c, r)
 		case i == 5:
 			caseAliasing(c, r)
+		case i == 6:
+			casePlanFixed(c, r)
 		default:
 			switch k := r.Intn(100); {
 			case k < 45:
